@@ -15,7 +15,7 @@ class Contract:
                  inline=False, trusted=False, pure=False, auto=True, result_fresh=True,
                  prop_of=None, notes='', cls_targs=None, verify=True, terminates=True, unroll=None,
                  reads_only=False, this_shape=None, extra_env=None, body_assumes=(), max_paths=4000,
-                 returns_ref=None, timeout_ms=None, sig_not=None, binds=None, ghost=None, ghost_on=(), nowrap=False, post_facts=(), value=None, ensures_after=(), globals=(), custom=None, facts_on=(), fn_params=None, ghost_fns=None, ghost_fn_args=None, asserts_on=(), chain=False, static_alias=None, only_tu=False, param_names=None):
+                 returns_ref=None, timeout_ms=None, sig_not=None, binds=None, ghost=None, ghost_on=(), nowrap=False, post_facts=(), value=None, ensures_after=(), globals=(), custom=None, facts_on=(), fn_params=None, ghost_fns=None, ghost_fn_args=None, asserts_on=(), chain=False, static_alias=None, only_tu=False, param_names=None, pins_algorithm=False):
         self.name = name
         self.tu = tu
         self.sig = sig
@@ -60,6 +60,10 @@ class Contract:
         self.fn_params = dict(fn_params or {})
         self.ghost_fns = dict(ghost_fns or {})
         self.ghost_fn_args = dict(ghost_fn_args or {})
+        # the functional clauses of this contract describe HOW the result is computed (tables, data path over an assumed
+        # transform), because the result itself cannot be stated over the assumed core: if one of them stops holding the
+        # algorithm has changed, which is a violation only when a failing input is found natively, otherwise undecided
+        self.pins_algorithm = pins_algorithm
         self.param_names = param_names   # the definition's parameter names, when callers in other TUs see a prototype that names them differently
         self.only_tu = only_tu     # internal linkage: the contract applies to the function of this name in c.tu only
         self.static_alias = dict(static_alias or {})   # static local name -> ghost global that stands for it
